@@ -2,12 +2,14 @@
 package c08
 
 import (
+	"bytes"
 	"context"
 	"encoding/json"
 	"fmt"
 	"io"
 	"log"
 	"os"
+	"runtime"
 	"sort"
 	"strings"
 	"sync"
@@ -26,14 +28,14 @@ const prop = "C08"
 
 const rule = "case = (generated world, constraint tree, planner wrapper, sort, limit) run through search.Handler.Query on an index with incremental corpus. " +
 	"World: 0-10 files (text/pdf/gif/gzip/binary contents in 1-3 chunks, names with/without extension, optional unixMtime), 0-9 nested directories sharing children, " +
-	"1-16 planned permanodes each with 1-9 set/add/del claims (camliNodeType, tag, title, num, camliMember, camliPath:x|y, camliContent, dateCreated, camliDefVis) dated from a 16-instant pool " +
+	"1-16 planned permanodes each with 1-9 set/add/del claims (camliNodeType, tag, title, num, camliMember, camliPath:x|y, camliContent, dateCreated, camliDefVis, latitude, longitude) dated from a 16-instant pool " +
 	"(ties across permanodes, sub-second, pre-1970), claim blobs uploaded in date order or shuffled. Domain restrictions: one signer (the owner); every permanode has >=1 claim, nothing is deleted; " +
-	"claim dates distinct per permanode and in the past; no empty values, no add of a value already present; edge/content values name indexed blobs or are not refs at all; a permanode has at most one of dateCreated/camliContent. " +
+	"claim dates distinct per permanode and in the past; no empty values, no add of a value already present; edge/content values name indexed blobs, are not refs at all, or (camliMember) name a blob the index never received; a permanode has at most one of dateCreated/camliContent. " +
 	"Constraint fragment generated: logical and/or/xor/not (<=4 levels, plus nested sub-queries); anything, camliType, anyCamliType, blobRefPrefix (digest-name-only, 1..56 hex digits, full ref), blobSize, several fields in one constraint, the zero constraint; " +
 	"permanode attr + value / valueMatches(equals,contains,hasPrefix,hasSuffix,byteLength,caseInsensitive,empty) / valueMatchesInt / numValue / valueAll / valueInSet(sub-query), at, modTime, time, skipHidden, relation(parent|child, edgeType, any|all); " +
 	"file fileName/fileSize/mimeType/wholeRef(sha224)/parentDir; dir fileName/blobRefPrefix/topFileCount/parentDir/contains/recursiveContains (contains shapes: blobRefPrefix | file | dir | and/or/xor/not of file/dir leaves). " +
-	"Not generated: regexp, inLast, valueMatchesFloat, location, image/EXIF/media fields, file time/modTime, claim constraints, Logical together with other fields, times equal to the Unix epoch, sort 'mod' (documented unsupported), 'map' sort with a limit. " +
-	"Oracles: (1) reference evaluator over the harness model (three-valued: doc-silent cases — relation 'all' over no relatives, permanode 'time' without a content time — may or may not match): no miss, no extra, no duplicate; " +
+	"Not generated: regexp, inLast, valueMatchesFloat, location, image/EXIF/media fields, file time/modTime, claim constraints, Logical together with other fields, time bounds within the first second of 1970 (Time3339.IsAnyZero reads them as unset), sort 'mod' (documented unsupported). Permanodes may carry latitude/longitude so that the 'map' sort prunes; for 'map' with a limit only: terminates, subset of the matches, no duplicate, at most N, nothing pruned when the matches fit. " +
+	"Oracles: (1) reference evaluator over the harness model (three-valued: doc-silent cases — relation 'all' over no relatives or with an edge to an unknown blob, permanode 'time' without a content time — may or may not match): no miss, no extra, no duplicate; " +
 	"(2) the same constraint as not(not C) (full enumeration) and under every supported sort returns the identical set; (3) sorted results are in key order, limit N = first N of the unlimited list (any N-subset when unsorted). " +
 	"non-trivial = tree with >=2 logical operators or planner chose a restricted candidate source; distinct = FNV-64 of (world blob list, query JSON incl. sort and limit, wrapper)"
 
@@ -132,6 +134,45 @@ func (r *runner) query(c *search.Constraint, wrapper string, st search.SortType,
 		out[i] = b.Blob.String()
 	}
 	return out, src, nil
+}
+
+// queryWithDeadline is query for the map sort, whose pruning loop is the only
+// place of the query path that can fail to return. A query that is still running
+// after the deadline is a violation only if its goroutine is provably inside
+// search.bestByLocation (stack dump); otherwise the run is inconclusive. The
+// process ends right away in both cases: the goroutine cannot be stopped and
+// rapid's shrinking would start one more of them per attempt.
+func (r *runner) queryWithDeadline(c *search.Constraint, wrapper string, st search.SortType, limit int, nLogical int) ([]string, string, error) {
+	type ans struct {
+		refs []string
+		src  string
+		err  error
+	}
+	ch := make(chan ans, 1)
+	go func() {
+		refs, src, err := r.query(c, wrapper, st, limit, nLogical)
+		ch <- ans{refs, src, err}
+	}()
+	deadline := 60 * time.Second
+	select {
+	case a := <-ch:
+		return a.refs, a.src, a.err
+	case <-time.After(deadline):
+	}
+	buf := make([]byte, 4<<20)
+	buf = buf[:runtime.Stack(buf, true)]
+	cj, _ := json.Marshal(c)
+	wd, _ := json.Marshal(r.w.Describe())
+	if bytes.Contains(buf, []byte("search.bestByLocation")) {
+		fmt.Fprintf(os.Stderr, "C08 violated: query does not return: sort=map limit=%d still inside search.bestByLocation after %v (it holds the index read lock)\n  constraint: %s\n  world: %s\n", limit, deadline, cj, wd)
+		evid.R.Violation()
+		evid.R.Flush(true)
+		os.Exit(1)
+	}
+	fmt.Fprintf(os.Stderr, "VERIF-INCONCLUSIVE: sort=map limit=%d query not finished after %v, but not inside bestByLocation\n%s\n", limit, deadline, buf)
+	evid.R.Flush(false)
+	os.Exit(2)
+	return nil, "", nil
 }
 
 func dupOf(refs []string) string {
@@ -320,7 +361,14 @@ func (r *runner) checkConstraint(c *search.Constraint, shape string, limitPick f
 	}
 	for _, st := range sorts {
 		what := "C sort=" + sortNames[st]
-		full, src, err := r.query(c, "plain", st, -1, nLog)
+		var full []string
+		var src string
+		var err error
+		if st == search.MapSort {
+			full, src, err = r.queryWithDeadline(c, "plain", st, -1, nLog)
+		} else {
+			full, src, err = r.query(c, "plain", st, -1, nLog)
+		}
 		if err != nil {
 			return fail("%s: query error: %v", what, err)
 		}
@@ -343,11 +391,15 @@ func (r *runner) checkConstraint(c *search.Constraint, shape string, limitPick f
 		if v := r.checkOrder(st, permOnly, full); v != "" {
 			return fail("%s: %s", what, v)
 		}
-		if st == search.MapSort {
-			continue // limit semantics of the map sort are outside the fragment
-		}
 		for _, lim := range limitPick(len(full), sortNames[st]) {
-			got, src2, err := r.query(c, "plain", st, lim, nLog)
+			var got []string
+			var src2 string
+			var err error
+			if st == search.MapSort {
+				got, src2, err = r.queryWithDeadline(c, "plain", st, lim, nLog)
+			} else {
+				got, src2, err = r.query(c, "plain", st, lim, nLog)
+			}
 			lw := fmt.Sprintf("C sort=%s limit=%d [source %s]", sortNames[st], lim, src2)
 			if err != nil {
 				return fail("%s: query error: %v", lw, err)
@@ -360,7 +412,18 @@ func (r *runner) checkConstraint(c *search.Constraint, shape string, limitPick f
 			if eff > 0 && eff < want {
 				want = eff
 			}
-			if len(got) != want {
+			if st == search.MapSort {
+				// "MapSort requests that any limited search results are optimized for rendering
+				// on a map. If there are fewer matches than the requested limit, no results are
+				// pruned." Which results survive pruning is not specified; Limit is "the maximum
+				// number of returned results".
+				if len(full) <= want && len(got) != len(full) {
+					return fail("%s: %d results, but the %d matches fit the limit and none may be pruned", lw, len(got), len(full))
+				}
+				if len(got) > want {
+					return fail("%s: %d results exceed the limit (unlimited result has %d)", lw, len(got), len(full))
+				}
+			} else if len(got) != want {
 				return fail("%s: %d results, want %d (unlimited result has %d)\n  got: %v", lw, len(got), want, len(full), got)
 			}
 			if d := dupOf(got); d != "" {
@@ -401,7 +464,7 @@ func TestSearchMatchesReference(t *testing.T) {
 		cfg = vw.ThoroughConfig
 		perWorld = 40
 	}
-	evid.Check(t, 300, 1500, func(t *rapid.T) {
+	evid.Check(t, 160, 800, func(t *rapid.T) {
 		w := vw.Gen(t, cfg)
 		ix, err := w.Build()
 		if err != nil {
@@ -440,6 +503,7 @@ func TestSearchMatchesReference(t *testing.T) {
 		}
 		evid.R.LabelN("reference/unspecified:relation-all-empty", r.ev.Stats.URelAllEmpty)
 		evid.R.LabelN("reference/unspecified:time-without-content-time", r.ev.Stats.UTimeGuess)
+		evid.R.LabelN("reference/unspecified:relation-all-dangling-edge", r.ev.Stats.URelAllDangling)
 	})
 }
 
